@@ -1,4 +1,5 @@
 import VermouthModel.C01_Attr
+import VermouthModel.C01_Pred
 open Proto C01
 
 def pairOf (t : Tok) : Option (Int × Int) := do
@@ -128,6 +129,40 @@ def mnodeOf (t : Tok) : Option MNode := do
       | [a, b] => pure (← a.str?, ← b.str?)
       | _ => none)
     pure { key := ← k.int?, attrs := as, resid := ← r.optInt? }
+  | _ => none
+
+/-! ### the reference matcher with predicate-valued template attributes (`matchesp`) -/
+
+def optStrs? (t : Tok) : Option (Option (List String)) :=
+  match t with
+  | Tok.none => some none
+  | _ => (strs? t).map some
+
+def anodeOf (t : Tok) : Option Pred.ANode := do
+  match ← t.list? with
+  | [k, attrs, r, mods] =>
+    let as ← (← attrs.list?).mapM (fun kv => do
+      match ← kv.list? with
+      | [a, b] => pure (← a.str?, ← b.optStr?)
+      | _ => none)
+    pure { key := ← k.int?, attrs := as, resid := ← r.optInt?, mods := ← optStrs? mods }
+  | _ => none
+
+def tvalOf (t : Tok) : Option Pred.TVal := do
+  match ← t.list? with
+  | [Tok.str "p", v] => pure (.plain (← v.optStr?))
+  | [Tok.str "c", vs] => pure (.choice (← (← vs.list?).mapM Tok.optStr?))
+  | [Tok.str "n", v] => pure (.notDef (← v.optStr?))
+  | _ => none
+
+def tnodeOf (t : Tok) : Option Pred.TNode := do
+  match ← t.list? with
+  | [k, attrs, r, mods] =>
+    let as ← (← attrs.list?).mapM (fun kv => do
+      match ← kv.list? with
+      | [a, b] => pure (← a.str?, ← tvalOf b)
+      | _ => none)
+    pure { key := ← k.int?, attrs := as, resid := ← r.optInt?, mods := ← optStrs? mods }
   | _ => none
 
 /-! ### the extended run (`mapx`) -/
@@ -277,6 +312,14 @@ def handle (_ : Unit) (toks : List Tok) : Unit × String :=
         let pn ← (← pnodes.list?).mapM mnodeOf
         let pe ← pairsOfTok pedges
         let ms := refMatches mn me pn pe
+        let canon := sortBy lexLt (ms.map (fun m => (sortBy (fun (a b : Int × Int) => a.1 < b.1) m).flatMap (fun p => [p.1, p.2])))
+        pure (encList (canon.map (fun m => encList (m.map encInt))))
+    | [Tok.str "matchesp", block, mnodes, medges, pnodes, pedges] => do
+        let mn ← (← mnodes.list?).mapM anodeOf
+        let me ← pairsOfTok medges
+        let pn ← (← pnodes.list?).mapM tnodeOf
+        let pe ← pairsOfTok pedges
+        let ms := Pred.refMatchesP ((← block.int?) != 0) mn me pn pe
         let canon := sortBy lexLt (ms.map (fun m => (sortBy (fun (a b : Int × Int) => a.1 < b.1) m).flatMap (fun p => [p.1, p.2])))
         pure (encList (canon.map (fun m => encList (m.map encInt))))
     | _ => none
